@@ -20,6 +20,19 @@ package schema
 //@   modifies iv.ItemType, iv.ItemValue
 //@   ensures [copy-of-value] is(value, *Value) ==> iv.ItemType == old(value.(*Value).ItemType) && iv.ItemValue == old(value.(*Value).ItemValue)
 //@   ensures [declared-type-kept] !is(value, *Value) && knownType(old(iv.ItemType)) ==> iv.ItemType == old(iv.ItemType)
+//@   ensures [declared-string-value] !is(value, *Value) && old(iv.ItemType) == ItemTypeString && is(value, string) ==> iv.ItemValue == value.(string)
+//@   ensures [declared-integer-keeps-every-signed-kind] !is(value, *Value) && old(iv.ItemType) == ItemTypeInteger ==>
+//@             (is(value, int) ==> iv.ItemValue == itoa(value.(int))) && (is(value, int8) ==> iv.ItemValue == itoa(value.(int8))) &&
+//@             (is(value, int16) ==> iv.ItemValue == itoa(value.(int16))) && (is(value, int32) ==> iv.ItemValue == itoa(value.(int32))) &&
+//@             (is(value, int64) ==> iv.ItemValue == itoa(value.(int64)))
+//@   ensures [declared-integer-keeps-every-unsigned-kind] !is(value, *Value) && old(iv.ItemType) == ItemTypeInteger ==>
+//@             (is(value, uint) ==> iv.ItemValue == itoa(value.(uint))) && (is(value, uint8) ==> iv.ItemValue == itoa(value.(uint8))) &&
+//@             (is(value, uint16) ==> iv.ItemValue == itoa(value.(uint16))) && (is(value, uint32) ==> iv.ItemValue == itoa(value.(uint32))) &&
+//@             (is(value, uint64) ==> iv.ItemValue == itoa(value.(uint64)))
+//@   ensures [declared-float-value] !is(value, *Value) && old(iv.ItemType) == ItemTypeFloat ==>
+//@             (is(value, float64) ==> iv.ItemValue == fmtf(value.(float64))) && (is(value, float32) ==> iv.ItemValue == fmtf(value.(float32)))
+//@   ensures [declared-bool-value] !is(value, *Value) && old(iv.ItemType) == ItemTypeBoolean && is(value, bool) ==> iv.ItemValue == (value.(bool) ? "true" : "false")
+//@   ensures [declared-mismatch-keeps-the-old-text] !is(value, *Value) && old(iv.ItemType) == ItemTypeString && !is(value, string) ==> iv.ItemValue == old(iv.ItemValue)
 //@   ensures [undeclared-integer] !is(value, *Value) && !knownType(old(iv.ItemType)) && effKind(value) >= 2 && effKind(value) <= 11 ==> iv.ItemType == ItemTypeInteger
 //@   ensures [undeclared-integer-value] !is(value, *Value) && !knownType(old(iv.ItemType)) && effKind(value) >= 2 && effKind(value) <= 6 ==>
 //@             iv.ItemValue == itoa(effVal(value).Int())
@@ -250,6 +263,17 @@ package schema
 //@   assumed
 //@   emits Call(code("schema|BaseElementInterface.SetId"), this)
 
+// Identifiers come from RandBytes (that two draws differ is randomness, outside any contract); what is under contract
+// is that every generated id is a draw of its own, counted per activation.
+//@ func RandBytes
+//@   prop C19
+//@   requires n >= 0
+//@   modifies nothing
+//@   flag countcalls
+//@   ensures [n-fresh-bytes] fresh(base(result)) && len(result) == n
+//@   loop 1 for
+//@     invariant (- 1) <= i && i < n && len(b) == n && fresh(base(b)) && preserved("elems([]byte)")
+
 // A new process builder starts with a fresh process whose only node is a fresh start event, and the cursor on it.
 //@ func NewProcessBuilder
 //@   prop C19
@@ -264,6 +288,17 @@ package schema
 //@             count(Call, code("schema|BaseElementInterface.SetId")) == old(count(Call, code("schema|BaseElementInterface.SetId"))) + 1
 //@   ensures [a-usable-id-is-kept] old(act.Id() != nil && *act.Id() != "") ==>
 //@             count(Call, code("schema|BaseElementInterface.SetId")) == old(count(Call, code("schema|BaseElementInterface.SetId")))
+//@   ensures [an-activity-of-every-kind-is-stored-in-the-process]
+//@             (is(act, *Task) ==> len(builder.Process.TaskField) == old(len(builder.Process.TaskField)) + 1) &&
+//@             (is(act, *BusinessRuleTask) ==> len(builder.Process.BusinessRuleTaskField) == old(len(builder.Process.BusinessRuleTaskField)) + 1) &&
+//@             (is(act, *UserTask) ==> len(builder.Process.UserTaskField) == old(len(builder.Process.UserTaskField)) + 1) &&
+//@             (is(act, *CallActivity) ==> len(builder.Process.CallActivityField) == old(len(builder.Process.CallActivityField)) + 1) &&
+//@             (is(act, *ManualTask) ==> len(builder.Process.ManualTaskField) == old(len(builder.Process.ManualTaskField)) + 1) &&
+//@             (is(act, *SendTask) ==> len(builder.Process.SendTaskField) == old(len(builder.Process.SendTaskField)) + 1) &&
+//@             (is(act, *ScriptTask) ==> len(builder.Process.ScriptTaskField) == old(len(builder.Process.ScriptTaskField)) + 1) &&
+//@             (is(act, *ServiceTask) ==> len(builder.Process.ServiceTaskField) == old(len(builder.Process.ServiceTaskField)) + 1) &&
+//@             (is(act, *ReceiveTask) ==> len(builder.Process.ReceiveTaskField) == old(len(builder.Process.ReceiveTaskField)) + 1) &&
+//@             (is(act, *SubProcess) ==> len(builder.Process.SubProcessField) == old(len(builder.Process.SubProcessField)) + 1)
 
 // Out closes the process with an end event and leaves the builder ready for the next process: a fresh process, the
 // cursor on its start event — not on a node of the process just returned.
@@ -280,3 +315,4 @@ package schema
 //@   ensures [assigns-no-id] count(Call, code("schema|BaseElementInterface.SetId")) == old(count(Call, code("schema|BaseElementInterface.SetId")))
 //@   ensures [cursor-moves-to-the-linked-node] result == builder && builder.ptr == node && builder.Process == old(builder.Process)
 //@   ensures [one-sequence-flow-added] len(builder.Process.SequenceFlowField) == old(len(builder.Process.SequenceFlowField)) + 1
+//@   ensures [the-flow-id-is-one-fresh-random-draw] ndirect(code("RandBytes")) == old(ndirect(code("RandBytes"))) + 1
